@@ -3,6 +3,7 @@
 package cl
 
 import (
+	"math"
 	"math/big"
 
 	"github.com/ohler55/slip"
@@ -54,7 +55,11 @@ func (f *Decf) Call(s *slip.Scope, args slip.List, depth int) (result slip.Objec
 		delta = args[1]
 		switch td := delta.(type) {
 		case slip.Fixnum:
-			delta = -td
+			if td == math.MinInt64 { // the negation does not fit in a fixnum
+				delta = (*slip.Bignum)(new(big.Int).Neg(big.NewInt(int64(td))))
+			} else {
+				delta = -td
+			}
 		case slip.SingleFloat:
 			delta = -td
 		case slip.DoubleFloat:
